@@ -2533,6 +2533,18 @@ bool CanettiGennaroJareckiKrawczykRabinDKG::Refresh
 		if (simulate_faulty_behaviour && simulate_faulty_randomizer[0])
 			throw false;
 
+		// A dealer that is not in the current QUAL takes no part in the refresh: its sharing of zero is dropped.
+		for (std::vector<size_t>::iterator it = x_zvss->QUAL.begin(); it != x_zvss->QUAL.end(); )
+		{
+			if (std::find(QUAL.begin(), QUAL.end(), *it) == QUAL.end())
+			{
+				mpz_sub(x_zvss->x_i, x_zvss->x_i, x_zvss->s_ji[dkg2idx[*it]][i_in]);
+				mpz_sub(x_zvss->xprime_i, x_zvss->xprime_i, x_zvss->sprime_ji[dkg2idx[*it]][i_in]);
+				it = x_zvss->QUAL.erase(it);
+			}
+			else
+				++it;
+		}
 		// Players add the generated shares to their current share of the private key $x$.
 		mpz_add(x_i, x_i, x_zvss->x_i);
 		if (simulate_faulty_behaviour && simulate_faulty_randomizer[1])
